@@ -40,7 +40,6 @@ package pcs
 //@   requires tcb != nil
 //@   assigns tcb.PCESvn, tcb.CPUSvn, tcb.CPUSvnComponents
 //@   ensures[components] err == nil ==> len(tcb.CPUSvnComponents) == 16 && fresh(tcb.CPUSvnComponents)
-//@   loop 1: unroll 16
 
 //@ func extractAsn1SequenceTcbExtension(ext) (r, err)
 //@   ensures[ok] err == nil ==> r != nil && len(r.CPUSvnComponents) == 16
